@@ -142,8 +142,11 @@ def decode_chunk_into(chunk, buf, block_size):
         if offset + 8 * gx * gy * gz > len(buf):
             raise InvalidFormatError("compressed_segmentation channel offset "
                                      "is too large (truncated file?)")
+        # Offsets inside a channel are relative to its start, but nothing
+        # guarantees that its data ends where the next channel begins (or
+        # even that channels are stored in order).
         _decode_channel_into(
-            chunk, channel, buf[offset:next_offset], block_size
+            chunk, channel, buf[offset:], block_size
         )
 
     return chunk
